@@ -204,7 +204,7 @@ def all_finished(st):
     return all(st['pc'][p] == 'idle' and st['ci'][p] == _PROG_LEN.get(p, st['ci'][p]) for p in st['pc'])
 
 
-def replay(ctx, name, prog, scheds, timeout='2s'):
+def replay(ctx, name, prog, scheds, timeout='500ms'):
     global _PROG_LEN
     job = {'cap': prog['cap'], 'procs': prog['procs'], 'schedules': scheds}
     jf = ctx.path('qjob_%s.json' % name)
